@@ -82,6 +82,12 @@ DESC = {
  'C19-c': ("get_partial_pressures: pure-component shortcut (Raoult) returns before the activity model and its missing-parameter checks are reached", "composition exactly 0 or 1 together with an incompletely specified activity model"),
  'C20-c': ("non-ideal models memoise find_best_fit per Pervaporation instance; the single-curve branches then overwrite b[0] of the cached function in place (shared coefficient lists)",
            "the same object reused: a single-curve set, an earlier call at another temperature or any non-isothermal call, then another non-ideal call"),
+ 'C04-d': ("NRTL: both ln(gamma) expressions through one helper called twice; the second call exchanges x and tau but passes the alphas in the original order", "a mixture with two different non-randomness factors (alpha21 stated and != alpha12), e.g. H2O/MeOH"),
+ 'C06-d': ("calculate_partial_fluxes converts explicitly passed permeances to kg units as well - the second one with the FIRST component's molar mass", "explicit permeances stated in SI or GPU units"),
+ 'C10-d': ("calculate_partial_fluxes: the iteration cap becomes a stall counter that is reset whenever the step shrinks", "an input whose iteration settles on a cycle of period >= 3 (near-equilibrium permeate temperature, UNIQUAC)"),
+ 'C13-d': ("Component.get_cooling_heat returns 0.0 when numpy.isclose(t0, t1) (default rtol 1e-5)", "two temperatures a few mK apart: additivity with one very short sub-interval, derivative at the start of the interval"),
+ 'C15-d': ("Composition.p gets a converter that snaps fractions within 1e-9 of 0 or 1 to exactly 0 / 1", "fractions within 1e-9 of an end point, on either side of the bound"),
+ 'C17-d': ("ProcessModel.save writes feed_temperature as a constant column taken from step 0", "a model whose feed temperature varies (non-isothermal models), saved and re-loaded"),
 }
 
 
